@@ -465,6 +465,14 @@ class C06Checker(Checker):
         self.later_sprout_on_level_after_stop: set = set()
         self.lsc_stops_level: dict[int, int] = {}
         self.nontrivial = False
+        # fresh, unobserved copies of the shipped (pure) local stop conditions: the statement says a deme stops
+        # when its condition HOLDS at the end of its metaepoch, whatever the engine made of the consultation
+        from .harness import build_lsc
+
+        self.pure_lsc = {}
+        for i, lv in enumerate(sc["levels"]):
+            if lv["lsc"]["kind"] in ("MetaepochLimit", "FitnessSteadiness", "DontRun", "DontStop", "AllChildrenStopped"):
+                self.pure_lsc[i] = (lv["lsc"]["kind"], build_lsc(lv["lsc"]))
 
     def _snap(self, run):
         out = {}
@@ -528,6 +536,17 @@ class C06Checker(Checker):
                     if c["active"] and (lsc_true or gsc_true or is_local or cma_stop):
                         why = "LSC" if lsc_true else "GSC" if gsc_true else "one-shot local search" if is_local else "CMA-ES stop()"
                         self.fail(f"not-stopped-despite-{'lsc' if lsc_true else 'gsc' if gsc_true else 'local' if is_local else 'cma'}/{t}", f"metaepoch {tree.metaepoch_count}: deme {did} ({t}) stayed active although {why} held at the end of its metaepoch")
+                    pure = self.pure_lsc.get(c["level"])
+                    if pure is not None and not gsc_true and not is_local and not cma_stop:
+                        kind, cond = pure
+                        try:
+                            holds = bool(cond(c["deme"]))
+                        except Exception:  # noqa: BLE001
+                            holds = None
+                        if holds is True and c["active"]:
+                            self.fail(f"lsc-holds-but-deme-active/{t}/{kind}", f"metaepoch {tree.metaepoch_count}: {kind} holds for deme {did} ({t}) at the end of its metaepoch {c['nhist'] - 1} but the deme is still active")
+                        if holds is False and not c["active"] and kind != "AllChildrenStopped":
+                            self.fail(f"stopped-although-lsc-does-not-hold/{t}/{kind}", f"metaepoch {tree.metaepoch_count}: deme {did} ({t}) was stopped although {kind} does not hold at the end of its metaepoch {c['nhist'] - 1}")
                     if lsc_true and not gsc_true and not c["active"]:
                         sib_active = any(o["active"] and o["level"] == c["level"] and oid != did for oid, o in cur.items())
                         if sib_active and c["level"] >= 1:
